@@ -346,7 +346,8 @@ def sbc_contracts(cs, tier):
         wbl = hdr_field(sch, sch.header, "blockLength", vw.begin)
         wm = Gen.wire_members(li)
         # structure-fits predicate, evaluated left to right so that nothing is read before it is known to be inside the buffer
-        conds = ["sbv_n >= %d" % hs, "%d + %s <= sbv_n" % (hs, wbl)]
+        # written subtractively (x <= n - off) so that 64-bit header/length fields cannot wrap the specification itself
+        conds = ["sbv_n >= %d" % hs, "%s <= sbv_n - %d" % (wbl, hs)]
         off = "(%d + %s)" % (hs, wbl)
         has_group = False
         for i, m in wm:
@@ -355,7 +356,7 @@ def sbc_contracts(cs, tier):
                 loff, lprim = sch.header_member(e, "length")
                 lw = PRIMS[lprim]["size"]
                 ln = hdr_field(sch, e, "length", "%s + %s" % (vw.begin, off))
-                conds += ["%s + %d <= sbv_n" % (off, lw), "%s + %d + %s <= sbv_n" % (off, lw, ln)]
+                conds += ["%d <= sbv_n - %s" % (lw, off), "%s <= sbv_n - %s - %d" % (ln, off, lw)]
                 off = "(%s + %d + %s)" % (off, lw, ln)
             elif m["mkind"] == "group":
                 has_group = True
@@ -364,7 +365,7 @@ def sbc_contracts(cs, tier):
                 at = "%s + %s" % (vw.begin, off)
                 nn = hdr_field(sch, dim, "numInGroup", at)
                 bl = hdr_field(sch, dim, "blockLength", at)
-                conds += ["%s + %d <= sbv_n" % (off, dim.size), "%s + %d + %s * %s <= sbv_n" % (off, dim.size, nn, bl)]
+                conds += ["%d <= sbv_n - %s" % (dim.size, off), "%s * %s <= sbv_n - %s - %d" % (nn, bl, off, dim.size)]
                 off = "(%s + %d + %s * %s)" % (off, dim.size, nn, bl)
         fits = "(" + " && ".join(conds) + ")"
         post = [("valid-exactly-when-the-structure-fits", "RET.valid == (_Bool)%s" % fits), ("exact-size-when-valid", "SPEC_IMPLIES(RET.valid, RET.size == %s)" % off), ("zero-size-when-invalid", "SPEC_IMPLIES(!RET.valid, RET.size == 0)"),
@@ -384,7 +385,7 @@ def sbc_contracts(cs, tier):
                     at = "%s + %s" % (vw.begin, o2)
                     nn = hdr_field(sch, dim, "numInGroup", at)
                     bl = hdr_field(sch, dim, "blockLength", at)
-                    bound.append(ASSUME("!(sbv_n >= %d && %d + %s <= sbv_n && %s + %d <= sbv_n) || %s <= 2" % (hs, hs, wbl, o2, dim.size, nn)))
+                    bound.append(ASSUME("!(sbv_n >= %d && %s <= sbv_n - %d && %d <= sbv_n - %s) || %s <= 2" % (hs, wbl, hs, dim.size, o2, nn)))
                     o2 = "(%s + %d + %s * %s)" % (o2, dim.size, nn, bl)
                 elif m["mkind"] == "data":
                     break
@@ -397,23 +398,23 @@ def sbc_contracts(cs, tier):
         # separates the part that holds today from the known findings
         benign = [ASSUME("sbv_n < %d || %s >= %dUL" % (hs, wbl, L.block_length))]
         # ... and whose <data> length prefixes are inside the buffer (their payload may still be truncated)
-        cprev = ["sbv_n >= %d" % hs, "%d + %s <= sbv_n" % (hs, wbl)]
+        cprev = ["sbv_n >= %d" % hs, "%s <= sbv_n - %d" % (wbl, hs)]
         o3 = "(%d + %s)" % (hs, wbl)
         for i, m in wm:
             if m["mkind"] == "data":
                 e = m["enc"]
                 loff, lprim = sch.header_member(e, "length")
                 lw = PRIMS[lprim]["size"]
-                benign.append(ASSUME("!(%s) || %s + %d <= sbv_n" % (" && ".join(cprev), o3, lw)))
+                benign.append(ASSUME("!(%s) || %d <= sbv_n - %s" % (" && ".join(cprev), lw, o3)))
                 ln = hdr_field(sch, e, "length", "%s + %s" % (vw.begin, o3))
-                cprev += ["%s + %d <= sbv_n" % (o3, lw), "%s + %d + %s <= sbv_n" % (o3, lw, ln)]
+                cprev += ["%d <= sbv_n - %s" % (lw, o3), "%s <= sbv_n - %s - %d" % (ln, o3, lw)]
                 o3 = "(%s + %d + %s)" % (o3, lw, ln)
             elif m["mkind"] == "group":
                 dim = m["level"].dimension
                 at = "%s + %s" % (vw.begin, o3)
                 nn = hdr_field(sch, dim, "numInGroup", at)
                 bl = hdr_field(sch, dim, "blockLength", at)
-                cprev += ["%s + %d <= sbv_n" % (o3, dim.size), "%s + %d + %s * %s <= sbv_n" % (o3, dim.size, nn, bl)]
+                cprev += ["%d <= sbv_n - %s" % (dim.size, o3), "%s * %s <= sbv_n - %s - %d" % (nn, bl, o3, dim.size)]
                 o3 = "(%s + %d + %s * %s)" % (o3, dim.size, nn, bl)
         out.append(Contract(f, name + " [wire block >= compiled block, data prefixes inside]", props={"C06"}, ghosts=GH_N, mode="S", pre=pre + bound + benign, post=post, assigns=[], kind=kind, unwind=unwind, backends=PB))
     return out
